@@ -35,7 +35,10 @@ SEQ_COMB = {
 }
 TRANSPARENT = {"nom::combinator::map", "nom::combinator::recognize", "nom::combinator::value",
                "nom::combinator::cut", "nom::combinator::complete", "nom::combinator::all_consuming",
-               "nom::combinator::into", "nom::combinator::map_opt", "nom::combinator::map_res"}
+               "nom::combinator::into", "nom::combinator::map_opt", "nom::combinator::map_res",
+               # verify(p, f) restricts p by a predicate on the *parsed value* (a context-sensitive constraint such as
+               # "end tag = start tag"); the regular reading keeps L(p), as the grammar of the Recommendation does
+               "nom::combinator::verify"}
 
 TAKE_UNTIL = "xml_nom::helper::take_until"
 TAKE_EXCEPT = "xml_nom::helper::take_except"
@@ -604,3 +607,88 @@ def r18_2(facts, res, tier):
     st = res.rules["R18-2"]
     if st["instances"] < 8:
         raise BrokenCheck("R18-2: %d name productions compared, floor 8" % st["instances"])
+
+
+# ------------------------------------------------------------------------------------------
+# R01-2 ordered-choice soundness
+
+def recursive_atoms(facts, ex, fn_filter):
+    """fid -> path for every parser function on a cycle of the reference graph."""
+    import e1
+    refs = {}
+    for fid, f in facts.fns.items():
+        if not fn_filter(f):
+            continue
+        try:
+            t = ex.fn_term(f)
+        except Unknown:
+            continue
+        r = set()
+        _refs(t, r)
+        refs[fid] = {x for x in r if x in facts.fns}
+    # include referenced helpers outside the filter
+    more = True
+    while more:
+        more = False
+        for fid in list(refs):
+            for x in refs[fid]:
+                if x not in refs:
+                    try:
+                        t = ex.fn_term(facts.fns[x])
+                        r = set()
+                        _refs(t, r)
+                        refs[x] = {y for y in r if y in facts.fns}
+                        more = True
+                    except Unknown:
+                        refs[x] = set()
+    comps = e1.sccs(sorted(refs), lambda n: [x for x in refs.get(n, ()) if x in refs])
+    rec = {}
+    for c in comps:
+        if len(c) > 1 or (c[0] in refs.get(c[0], ())):
+            for x in c:
+                rec[x] = facts.fns[x]["path"]
+    return rec
+
+
+def ordered_choice(facts, ex, res, rule, fn_filter, reasons=None):
+    """For every alt(e1..en): no string of an earlier alternative may be a proper prefix of a string of a later
+    one (nom commits to the first alternative that matches a prefix and never comes back)."""
+    from common import Finding
+    reasons = reasons or {}
+    rec = recursive_atoms(facts, ex, fn_filter)
+    st = res.rule(rule, instances=0, pairs=0, reasoned=0)
+    by_fn = {f["path"]: f for f in facts.fns.values()}
+    for a in ex.alts:
+        f = by_fn.get(a["fn"])
+        if f is None or not fn_filter(f):
+            continue
+        st["instances"] += 1
+        arms = [expand(ex, t, rec, ()) for t in a["arms"]]
+        sets, atoms = {UNIVERSE}, set()
+        for t in arms:
+            A.collect_sets(t, sets, atoms)
+        al = A.Alphabet(sets, atoms)
+        b = A.Builder(al)
+        dfas = [b.dfa_of(t) for t in arms]
+        anyplus = b.dfa_of(("plus", ("alt", [("cls", UNIVERSE)] + [("nt", x) for x in sorted(atoms)])))
+        hits = []
+        for i in range(len(arms)):
+            # L(ei) . Sigma+
+            ext = b.dfa_of(("seq", [arms[i], ("plus", ("alt", [("cls", UNIVERSE)] + [("nt", x) for x in sorted(atoms)]))]))
+            for j in range(i + 1, len(arms)):
+                st["pairs"] += 1
+                w = ext.intersect(dfas[j]).shortest()
+                if w is not None:
+                    hits.append((i + 1, j + 1, al.render(w)))
+        res.oblige(1, not [h for h in hits if ("%s|alt#%d|%d<%d" % (a["fn"], a["ord"], h[0], h[1])) not in reasons])
+        for i, j, w in hits:
+            key = "%s|alt#%d|%d<%d" % (a["fn"], a["ord"], i, j)
+            if key in reasons:
+                st["reasoned"] += 1
+                continue
+            res.add(Finding(rule, key,
+                            "in %s, alternative %d of alt #%d matches a proper prefix of %r, which only the later alternative %d "
+                            "matches completely: nom commits to alternative %d and the rest of the input then fails"
+                            % (a["fn"], i, a["ord"], w, j, i), f["file"], a.get("line"), {"witness": w}))
+        if hits:
+            res.sample({"rule": rule, "fn": a["fn"], "alt": a["ord"], "prefix_pairs": hits}, limit=20)
